@@ -17,9 +17,9 @@ Unordered(v) == IF IsS(v) THEN v
 SameUpToFieldOrder(s, t) == Len(s) = Len(t) /\ \A n \in 1..Len(s) : Unordered(M(s[n])) = Unordered(M(t[n]))
 (* Diagnosis of one known defect (never an excuse: the line is reported all the same, under its own name): what   *)
 (* the pipeline would give if every reader of YAML text sorted the keys of every map by byte order.              *)
-Alphabet == <<".", "0", "1", "2", "3", "4", "5", "6", "7", "8", "9", ":", ";",
+Alphabet == <<"+", ".", "0", "1", "2", "3", "4", "5", "6", "7", "8", "9", ":", ";",
               "a", "b", "c", "d", "e", "f", "g", "h", "i", "j", "k", "l", "m", "n", "o", "p", "q", "r", "s", "t", "u", "v", "w", "x", "y", "z">>
-Rank(c) == CHOOSE i \in 1..Len(Alphabet) : Alphabet[i] = c
+Rank(c) == IF \E i \in 1..Len(Alphabet) : Alphabet[i] = c THEN CHOOSE i \in 1..Len(Alphabet) : Alphabet[i] = c ELSE 0
 RECURSIVE LexLess(_, _)
 LexLess(a, b) == IF a = <<>> THEN b # <<>> ELSE IF b = <<>> THEN FALSE
                  ELSE IF a[1] = b[1] THEN LexLess(Tail(a), Tail(b)) ELSE Rank(a[1]) < Rank(b[1])
